@@ -102,7 +102,8 @@ fn msg_s(depth: u32) -> BoxedStrategy<MsgSpec> {
 fn file_s() -> impl Strategy<Value = FileSpec> {
     (
         0u8..8,
-        0u8..3,
+        // 0 none, 1 `p`, 2 `p.q`, 3 = present but empty (`package: Some("")`, what hand-built descriptors carry)
+        prop_oneof![6 => 0u8..3, 1 => Just(3u8)],
         proptest::collection::vec(msg_s(1), 0..=3),
         proptest::collection::vec(enum_s(), 0..=2),
         proptest::collection::vec(0u8..=3, 0..=2),
@@ -298,6 +299,7 @@ impl Walker {
             _ => format!("p.q.f{idx}.proto"),
         };
         let package = match spec.pkg % 3 {
+            0 if spec.pkg >= 3 => Some(String::new()),
             0 => None,
             1 => Some("p".to_string()),
             _ => Some("p.q".to_string()),
@@ -1055,6 +1057,7 @@ pub fn run(c: &Case, o: &mut Outcome) -> Result<(), Failure> {
     for (i, f) in c.files.iter().enumerate() {
         if m.registered[i] {
             o.label(["pkg_none", "pkg_p", "pkg_p.q"][f.pkg as usize % 3]);
+            o.label_if(f.pkg == 3, "pkg_present_but_empty");
         }
     }
     let pkgs: BTreeSet<u8> = c.files.iter().enumerate().filter(|(i, _)| m.registered[*i]).map(|(_, f)| f.pkg % 3).collect();
